@@ -30,7 +30,9 @@ CLAIMS = {
              "precedes the _submit of its consumer, every popleft is dominated by a length guard; with clock == SIMULATED substituted no queue "
              "operation, _submit, header/record construction or step argument depends (by value or guard) on time.time(), now() or the real-time "
              "factor; the non-blocking selector waits for a receive time strictly in the future; delays come from the wrapper's own sampler seeded "
-             "from the step rng, no ambient randomness; run/reset/step compose start, run_until_supervisor, run_supervisor as specified. "
+             "from the step rng, no ambient randomness; run/reset/step compose start, run_until_supervisor, run_supervisor as specified; values travel between task functions only through the "
+             "event queues (a scalar attribute mutated by one task function is neither read nor written by another), the _submit gates accept exactly the "
+             "reference states, the awaited arrival of a blocking step is the maximum over exactly the popped receive times. "
              "Not decided: confluence of the per-queue protocol itself (informal composition with C03), wall-clock behaviour.",
         ref="§5 C02"),
     "C03": dict(
@@ -63,7 +65,8 @@ CLAIMS = {
              "node resets, startup, wait, start; run_supervisor resolves the action exactly once; every append is followed on every path by a trigger "
              "of a function that pops that queue, every popleft is length-guarded; every attribute mutated by task code is unconditionally "
              "re-initialised on the start path (fresh deques, counters/drift/FIFO clamp to 0, episode counter first); the episode filter dominates "
-             "every mutation in the header-receiving entries. Not decided: user startup/stop/step terminating, wall-clock starvation.",
+             "every mutation in the header-receiving entries; start() blocks only on the startup futures; the step is handed seq / ts = the episode's own "
+             "tick and scheduled start. Not decided: user startup/stop/step terminating, wall-clock starvation.",
         ref="§5 C05"),
     "C06": dict(
         technique="path call-count dataflow over branch-condition atoms (A2) plus who-may-call (A1) on resolved call sites",
@@ -71,7 +74,8 @@ CLAIMS = {
              "push_step -> _async_step -> async_step -> node.step / _run_generation -> cond -> _run_node -> node.step / run_supervisor is called "
              "exactly once, zero times on masked, skipped and user-overridden paths; that step-like methods are called from no other site; "
              "that the value handed on is the result of that one call and carries the tick's sequence number; that the supervisor's wrapper "
-             "is redirected to the synchronizer, which never runs the step. Not decided: XLA duplicating/eliminating effects, vmapped execution.",
+             "is redirected to the synchronizer, which never runs the step; that the wrapper's step chain is only ever rebound to its own jit / AOT-compiled "
+             "form, and only under jit_step. Not decided: XLA duplicating/eliminating effects, vmapped execution.",
         ref="§5 C06"),
     "C07": dict(
         technique="enum/branch exhaustiveness, ordering-abstraction tables of the edge / attachment / window-selection predicates, role typing of the schedule fill, ordering of generation execution",
@@ -90,7 +94,7 @@ CLAIMS = {
              "the producer's window; the one unmapped read (supervisor no-op value) is only selected under cond(step == 0); buffers are written only "
              "by update_output / replace_buffer, at the slot's own sequence number, once per generation after all its slots have read; the user size is "
              "rejected iff smaller than the computed minimum; minimum sizes aggregate over every reader of a producer; allocation is max(sizes) + "
-             "extra_padding copies of init_output; default windows hold init_output. Not decided: the arithmetic of get_buffer_sizes itself.",
+             "extra_padding copies of init_output; default windows hold init_output; generations and the slots of a kind run in ascending generation order. Not decided: the arithmetic of get_buffer_sizes itself.",
         ref="§5 C08"),
     "C09": dict(
         technique="effect (purity) analysis of the compiled API cone, API call-sequence agreement, must-pass-through of the clip on every index use, provenance of user params",
@@ -105,8 +109,8 @@ CLAIMS = {
         text="Decides: in both runtimes every recorded field is a projection of the very StepState handed to the step or of that call's result (incl. "
              "delay == ts_end - ts_start in both clock branches, header ts == ts_end, adjusted ts under the wall clock), the next step starts from the "
              "returned state; nothing derived from record settings / record state reaches a queue operation, _submit, step argument, buffer or state "
-             "update; record templates are -1 filled, rows are written at the slot's sequence number, a masked slot writes back the row read at that "
-             "index; step records stop at max_records. Not decided: dtype/shape fidelity.",
+             "update; record templates are -1 filled, rows are written at the slot's sequence number, a masked slot and a skipped supervisor step write back the row read at that "
+             "index; with a record update_state returns the record-free result with only the record's output leaf replaced; step records stop at max_records. Not decided: dtype/shape fidelity.",
         ref="§5 C13"),
     "C14": dict(
         technique="role typing of conversion projections, sentinel table agreement (writer/reader of the -1 padding), leafwise indexing, set-membership guards of filter",
@@ -145,11 +149,11 @@ CLAIMS = {
     "C15": dict(
         technique="sanitiser must-pass-through (clip at 0), PRNG-key linearity, effect analysis, closed-form normal forms of quantiles, provenance of the default expected delay and of the estimator's exported distribution",
         text="Decides: every static sample passes clip(., 0, None), a trainable delay is min + alpha (max - min) with asserted 0 <= min < max and clipped alpha; "
-             "sample splits the stored key once, keeps one half and feeds the other to exactly one sampler, reset stores the given key; sample / reset / quantile "
+             "sample splits the stored key once, keeps one half and feeds the other to exactly one sampler on every return path, reset stores the given key; sample / reset / quantile "
              "/ mean / pdf have no outside effect; Deterministic.quantile = mean, Normal.quantile = ndtri(q) scale + loc, trainable = min + alpha (max - min), "
              "mixtures delegate to the grid routine on their own distribution (whose structure is checked: CDF evaluated on the grid the result indexes, "
              "first grid point with cdf > p, weighted component fallback, span check raises), unknown distributions raise; default expected delay = quantile(0.99), asserted "
-             "non-negative; zero-spread data is exported as Deterministic(mean), otherwise a mixture with normalised weights and rescaled components. "
+             "non-negative; zero-spread data is exported as Deterministic(mean), otherwise a mixture with normalised weights and rescaled components whose weights, means and scales go through the same sort / pruning. "
              "Not decided: the mixture grid quantile's accuracy, fitted values.",
         ref="§5 C15"),
     "C17": dict(
@@ -165,7 +169,7 @@ CLAIMS = {
         text="Decides: in the CEM update raw losses are only used inside where(isnan(l), inf, l), the evolutionary step tells the strategy the sanitised fitness of the "
              "asked population; every CEM sample is clip(mean + stdev * noise, u_min, u_max) and the strategy gets clip_min/max = flattened u_min/u_max; the best "
              "index is the first of an ascending argsort of the sanitised losses, the stored loss is min(old, new) in every ordering case, candidate and loss are "
-             "selected by the same predicate, the initial best loss is +inf. Not decided: evosax internals, elite statistics.",
+             "selected by the same predicate, the initial best loss is +inf; cem() / evo() scan from the caller's state and thread the state returned by each step. Not decided: evosax internals, elite statistics.",
         ref="§5 C18"),
     "C19": dict(
         technique="provenance dataflow of Environment.step and the auto-reset pass-through, closed-form normal forms of the episode log for done in {0,1}, rational normal forms of squash/unsquash (declared pair tanh/arctanh), agreement of the three running-moment clones with Chan's formula",
